@@ -665,6 +665,109 @@ pub fn run_one_th(seed: u64, rt: &tokio::runtime::Runtime) -> Outcome {
     finish(seed, h, v, desc, true)
 }
 
+/// E-T "wide" scenario: an actor that is the sole member of many groups exits while other threads join other actors
+/// into those same groups (and leave again); when everything has returned, the indexes and the six queries must agree
+/// with the surviving membership.
+pub fn run_wide_th(seed: u64, rt: &tokio::runtime::Runtime) -> Outcome {
+    let mut p = Prng::new(seed ^ 0x3a);
+    let intensity = *p.pick(&[0u32, 30, 60]);
+    th::begin(seed, intensity);
+    let k = p.range(20, 160) as usize;
+    let scope = scopes()[p.below(2) as usize].clone();
+    let groups: Vec<String> = (0..k).map(|i| format!("w{seed:x}-{i}")).collect();
+    let njoiners = p.range(1, 3) as usize;
+    let mut v: Vec<(String, String)> = vec![];
+    let spawn = |tag: String| {
+        let (a, h) = rt.block_on(ractor::Actor::spawn(Some(tag), Dummy, ())).expect("spawn");
+        (a, h)
+    };
+    let (leaver, leaver_h) = spawn(format!("c11w-l-{seed:x}"));
+    let joiners: Vec<_> = (0..njoiners).map(|j| spawn(format!("c11w-j{j}-{seed:x}"))).collect();
+    for g in &groups {
+        pg::join_scoped(scope.clone(), g.clone(), vec![leaver.get_cell()]);
+    }
+    let mut clients: Vec<Box<dyn FnOnce() -> BTreeSet<String> + Send>> = vec![];
+    {
+        let (l, mut sp, how) = (leaver.clone(), p.fork(), p.below(3));
+        clients.push(Box::new(move || {
+            for _ in 0..sp.below(3000) {
+                std::hint::spin_loop();
+            }
+            match how {
+                0 => l.stop(None),
+                1 => l.kill(),
+                _ => {
+                    let _ = l.drain();
+                }
+            }
+            BTreeSet::new()
+        }));
+    }
+    for (j, (a, _)) in joiners.iter().enumerate() {
+        let (a, mut sp, scope, mut gs) = (a.clone(), p.fork(), scope.clone(), groups.clone());
+        sp.shuffle(&mut gs);
+        let leave_some = j == 1;
+        clients.push(Box::new(move || {
+            let mut mine = BTreeSet::new();
+            for _ in 0..sp.below(3000) {
+                std::hint::spin_loop();
+            }
+            for g in gs {
+                pg::join_scoped(scope.clone(), g.clone(), vec![a.get_cell()]);
+                mine.insert(g.clone());
+                if leave_some && sp.chance(1, 3) {
+                    pg::leave_scoped(scope.clone(), g.clone(), vec![a.get_cell()]);
+                    mine.remove(&g);
+                }
+            }
+            mine
+        }));
+    }
+    let results = th::run_clients(clients);
+    let _ = rt.block_on(leaver_h);
+    th::end();
+    // expected membership: per group the joiners that kept it
+    let mut dead = HashSet::new();
+    dead.insert(pid_of(&leaver.get_cell()));
+    v.extend(check_structure(&dead));
+    for (j, mine) in results.iter().skip(1).enumerate() {
+        let me = pid_of(&joiners[j].0.get_cell());
+        for g in &groups {
+            let has = pg::get_scoped_members(&scope, g).iter().any(|c| pid_of(c) == me);
+            if has != mine.contains(g) {
+                v.push(("membership".to_string(), format!("joiner {j} {} group {g} by its own operations but get_scoped_members says member={has}", if mine.contains(g) { "is in" } else { "left" })));
+            }
+        }
+        let listed: BTreeSet<String> = pg::which_scoped_groups(&scope).into_iter().collect();
+        for g in mine {
+            if !listed.contains(g) {
+                v.push(("query-mismatch".to_string(), format!("group {scope}/{g} has a live member (joiner {j}) but which_scoped_groups omits it")));
+            }
+        }
+    }
+    for (a, h) in joiners {
+        a.stop(None);
+        let _ = rt.block_on(h);
+    }
+    let _ = crate::th::settle_leaks();
+    for l in vt::global_leaks() {
+        v.push(("leak".to_string(), l));
+    }
+    for (loc, msg) in crate::take_foreign_panics() {
+        v.push(("foreign-panic".into(), format!("{loc}: {msg}")));
+    }
+    Outcome {
+        violations: v,
+        nontrivial: true,
+        sig: hash_words(&[0x51de, k as u64, njoiners as u64, intensity as u64, results.iter().map(|r| r.len() as u64).sum()]),
+        desc: vec![format!("wide: leaver sole member of {k} groups in {scope}, {njoiners} concurrent joiners, intensity={intensity}")],
+        ops: (k * (1 + njoiners)) as u64,
+        reads_decided: 0,
+        notifications: 0,
+        sample: vec![],
+    }
+}
+
 pub fn run(args: &Args, rep: &mut Report) {
     let seeds: Vec<u64> = match args.replay {
         Some(s) => vec![s],
@@ -674,6 +777,7 @@ pub fn run(args: &Args, rep: &mut Report) {
     for seed in seeds {
         crate::watch_begin(seed);
         let o = match &rt {
+            Some(rt) if seed % 4 == 1 => run_wide_th(seed, rt),
             Some(rt) => run_one_th(seed, rt),
             None => run_one_vt(seed),
         };
